@@ -140,3 +140,38 @@ Definition pkt_shape (p : list Z) : bool :=
 (* n0 P1 n1 P2 n2 ... Pk nk *)
 Definition stream_of (n0 : list Z) (items : list (packet * list Z)) : list Z :=
   n0 ++ flat_map (fun it => fst it ++ snd it) items.
+
+(* a stream described by its construction: packets (20 bytes, AA 55 ...) and gaps of arbitrary bytes (noise, damaged or
+   truncated packets) between them *)
+Inductive seg := Gap (g : list Z) | Pkt (p : packet).
+Definition seg_bytes (s : seg) : list Z := match s with Gap g => g | Pkt p => p end.
+Definition flatten (segs : list seg) : list Z := flat_map seg_bytes segs.
+Definition seg_ok (s : seg) : Prop := match s with Gap _ => True | Pkt p => pkt_shape p = true end.
+Definition free_b (l : list Z) : bool := match find_marker l with None => true | Some _ => false end.
+
+(* what the property demands, as a function of the construction alone.  The reader of the stream is
+     Sync n : in step with the sender, n = the marker-free noise seen since the last packet;
+     Lost   : out of step (some gap contained the marker);
+     Half   : out of step, directly behind a packet whose bytes after the header are marker-free.
+   In step, every packet must be cut out; out of step, the first packet may be lost, the one directly behind it
+   must be cut out, and from there on the reader is in step again. *)
+Inductive sync := Sync (n : list Z) | Lost | Half.
+Fixpoint must_cut (st : sync) (segs : list seg) : list packet :=
+  match segs with
+  | [] => []
+  | Gap g :: r =>
+    match st with
+    | Sync n => if free_b (n ++ g) then must_cut (Sync (n ++ g)) r else must_cut Lost r
+    | _ => must_cut Lost r
+    end
+  | Pkt p :: r =>
+    match st with
+    | Sync _ | Half => p :: must_cut (Sync []) r
+    | Lost => if free_b (skipn 2 p) then must_cut Half r else must_cut Lost r
+    end
+  end.
+
+Inductive subseq {A} : list A -> list A -> Prop :=
+| sub_nil l : subseq [] l
+| sub_take x a b : subseq a b -> subseq (x :: a) (x :: b)
+| sub_skip x a b : subseq a b -> subseq a (x :: b).
